@@ -405,6 +405,16 @@ func execIVF(c *ivfCase) []string {
 			s = s.WithNProbes(p)
 			ptok = fmt.Sprint(p)
 		}
+		if (cmd.K+len(cmd.Filter)+p)%2 == 0 && len(q) == c.Dim {
+			// the builder is used before: an earlier Execute of the same search object with another
+			// query (the negated, reversed one) must leave nothing behind that changes this answer
+			w := make([]float32, len(q))
+			for i := range q {
+				w[i] = -q[len(q)-1-i]
+			}
+			_, _ = s.WithQuery(w).Execute()
+			s = s.WithQuery(append([]float32(nil), q...))
+		}
 		res, err := s.Execute()
 		out := ""
 		if err != nil {
